@@ -395,6 +395,13 @@ func c18(ctx *Ctx) (*Outcome, error) {
 		jobs = append(jobs, &c18job{class: "valid:random", label: "fault-free random schema", outFile: "out/gen.go",
 			inv: &cli.Inv{Files: []batch.File{{Path: name, Data: data}}, Args: append(args, name)}})
 	}
+	for _, sh := range recursiveShapes() {
+		for ai, extra := range [][]string{nil, {"--only-models"}, {"--extra-imports", "--min-sized-ints"}} {
+			args := append(append([]string{"-p", "valid", "-o", "out/gen.go"}, extra...), "shape.json")
+			jobs = append(jobs, &c18job{class: "valid:" + sh.class, label: fmt.Sprintf("%s (args %d)", sh.label, ai), outFile: "out/gen.go",
+				inv: &cli.Inv{Files: []batch.File{{Path: "shape.json", Data: []byte(sh.text)}}, Args: args}})
+		}
+	}
 	for _, sh := range compositionShapes() {
 		for ai, extra := range [][]string{nil, {"--only-models"}, {"--extra-imports"}, {"--min-sized-ints", "--struct-name-from-title"}} {
 			args := append(append([]string{"-p", "valid", "-o", "out/gen.go"}, extra...), "shape.json")
@@ -686,6 +693,33 @@ func faultShapes() []compShape {
 			}
 			for _, pos := range positions {
 				out = append(out, compShape{class: f.name + ":" + l.name + "@" + pos.name, label: fmt.Sprintf("%s in %s at %s", f.name, l.name, pos.name), text: pos.text})
+			}
+		}
+	}
+	return out
+}
+
+// recursiveShapes: compositions that lead back to the definition they sit in (directly, through a second definition,
+// through items / additionalProperties, next to other members): valid inputs - the run ends with output or a
+// diagnostic.
+func recursiveShapes() []compShape {
+	var out []compShape
+	for _, kw := range []string{"allOf", "anyOf"} {
+		self := `{"$ref":"#/$defs/Node"}`
+		other := `{"type":"object","properties":{"w":{"type":"integer"}}}`
+		lists := []struct{ name, text string }{{"self", `[` + self + `]`}, {"self-and-inline", `[` + self + `,` + other + `]`}, {"inline-and-self", `[` + other + `,` + self + `]`}, {"self-twice", `[` + self + `,` + self + `]`}}
+		for _, l := range lists {
+			comp := `{"` + kw + `":` + l.text + `}`
+			layouts := []struct{ name, text string }{
+				{"property", `{"type":"object","properties":{"n":{"$ref":"#/$defs/Node"}},"$defs":{"Node":{"type":"object","properties":{"v":{"type":"integer","minimum":1},"next":` + comp + `},"required":["v"]}}}`},
+				{"items", `{"type":"object","properties":{"n":{"$ref":"#/$defs/Node"}},"$defs":{"Node":{"type":"object","properties":{"v":{"type":"integer"},"children":{"type":"array","items":` + comp + `}}}}}`},
+				{"map-values", `{"type":"object","properties":{"n":{"$ref":"#/$defs/Node"}},"$defs":{"Node":{"type":"object","properties":{"v":{"type":"integer"},"byName":{"type":"object","additionalProperties":` + comp + `}}}}}`},
+				{"mutual", `{"type":"object","properties":{"n":{"$ref":"#/$defs/Node"}},"$defs":{"Node":{"type":"object","properties":{"peer":{"` + kw + `":[{"$ref":"#/$defs/Peer"}]}}},"Peer":{"type":"object","properties":{"back":` + comp + `}}}}`},
+				{"definition-is-composition", `{"type":"object","properties":{"n":{"$ref":"#/$defs/Node"}},"$defs":{"Node":{"type":"object","` + kw + `":[{"type":"object","properties":{"v":{"type":"integer"},"next":{"$ref":"#/$defs/Node"}}}]}}}`},
+				{"root", `{"type":"object","properties":{"v":{"type":"integer"},"next":{"` + kw + `":[{"$ref":"#"}]}}}`},
+			}
+			for _, lay := range layouts {
+				out = append(out, compShape{class: "recursive:" + kw + ":" + l.name + "@" + lay.name, label: fmt.Sprintf("recursive %s %s at %s", kw, l.name, lay.name), text: lay.text})
 			}
 		}
 	}
